@@ -24,6 +24,7 @@ fn main() {
         "C09" => props::c09::run(&cfg),
         "C17" => props::c17::run(&cfg),
         "C18" => props::c18::run(&cfg),
+        "C10" => props::c10::run(&cfg),
         "C12" => props::c12::run(&cfg),
         "C13" => props::c13::run(&cfg),
         "C16" => props::c16::run(&cfg),
